@@ -550,3 +550,5 @@ V("c12-percentage-finished-constant", "C12", PG, "        if not self.total:\n  
 V("c03-grey-round-half-up", "C03", "rich/color.py", "                gray = round(l * 25.0)\n", "                gray = int(l * 25.0 + 0.5)\n", "R3.14")
 V("c18-grey-round-half-up", "C18", "rich/color.py", "                gray = round(l * 25.0)\n", "                gray = int(l * 25.0 + 0.5)\n", "R18.10")
 V("c07-tabs-after-divide", "C07", "rich/text.py", '            if "\\t" in line:\n                line.expand_tabs(tab_size)\n            if no_wrap:\n                new_lines = Lines([line])\n            else:\n                offsets = divide_line(str(line), width, fold=wrap_overflow == "fold")\n                new_lines = line.divide(offsets)\n            for line in new_lines:\n', '            if no_wrap:\n                new_lines = Lines([line])\n            else:\n                offsets = divide_line(str(line), width, fold=wrap_overflow == "fold")\n                new_lines = line.divide(offsets)\n            for line in new_lines:\n                if "\\t" in line:\n                    line.expand_tabs(tab_size)\n', "R7.21")
+V("c05-append-length-in-cells", "C05", TX7, "                offset = len(self)\n                text_length = len(text)\n", "                offset = len(self)\n                text_length = cell_len(text)\n", "R5.1")
+V("c05-append-text-length-in-cells", "C05", TX7, "        self._text.append(text.plain)\n        self._spans.extend(text_spans)\n        self._length += len(text)\n        return self\n\n    def append_tokens", "        self._text.append(text.plain)\n        self._spans.extend(text_spans)\n        self._length += cell_len(text.plain)\n        return self\n\n    def append_tokens", "R5.1")
